@@ -17,33 +17,71 @@ HENV = {"CELER_LOG": "critical", "CELER_LOG_LOCAL": "critical"}
 
 
 MODEL_EXE = {}
+NPAR = 4     # parallel chunks for the model and the harness
+
+
+def _split(cases, k):
+    k = max(1, min(k, len(cases)))
+    size = (len(cases) + k - 1) // k
+    return [cases[a:a + size] for a in range(0, len(cases), size)]
 
 
 def model_eval(ctx, name, cases, nproc=None):
     """Run the extracted OCaml model (coq/C02/Extract.v + harness/driver.ml) on
     the same text the C++ harness reads."""
-    txt = "".join(gen.harness_text(c) for c in cases)
-    rc, out = vlib.sh([MODEL_EXE["exe"]], input=txt, timeout=900)
-    res, done = gen.parse_harness(out, len(cases))
-    if rc != 0 or not done:
-        raise RuntimeError("extracted model failed rc=%d: %s" % (rc, out[-1500:]))
-    return res
+    from concurrent.futures import ThreadPoolExecutor
+
+    def one(part):
+        txt = "".join(gen.harness_text(c) for c in part)
+        rc, out = vlib.sh([MODEL_EXE["exe"]], input=txt, timeout=1800)
+        res, done = gen.parse_harness(out, len(part))
+        if rc != 0 or not done:
+            raise RuntimeError("extracted model failed rc=%d: %s" % (rc, out[-1500:]))
+        return res
+
+    if not cases:
+        return []
+    with ThreadPoolExecutor(max_workers=NPAR) as ex:
+        parts = list(ex.map(one, _split(cases, NPAR if len(cases) > 50 else 1)))
+    return [r for p_ in parts for r in p_]
 
 
 def impl_eval(ctx, exe, cases):
-    txt = "".join(gen.harness_text(c) for c in cases)
-    rc, out = ctx.run_harness(exe, input=txt, env=HENV, timeout=900)
-    res, done = gen.parse_harness(out, len(cases))
-    crashed = None
-    if rc != 0 or not done:
-        # the first case without a complete dump is the one that crashed
-        for i, (c, r) in enumerate(zip(cases, res)):
-            if len(r) != len(c["ops"]):
-                crashed = i
-                break
-        if crashed is None:
-            crashed = len(cases) - 1
-    return res, crashed, (rc, out[-1500:])
+    """-> (dumps per case, index of the first case that crashed the harness or None, info)"""
+    from concurrent.futures import ThreadPoolExecutor
+
+    def one(part):
+        txt = "".join(gen.harness_text(c) for c in part)
+        rc, out = ctx.run_harness(exe, input=txt, env=HENV, timeout=1800)
+        res, done = gen.parse_harness(out, len(part))
+        crashed = None
+        if rc != 0 or not done:
+            # the first case without a complete dump is the one that crashed
+            for i, (c, r) in enumerate(zip(part, res)):
+                if len(r) != len(c["ops"]):
+                    crashed = i
+                    break
+            if crashed is None:
+                crashed = len(part) - 1
+            # the cases after the crash were not executed: run them separately
+            rest = part[crashed + 1:]
+            if rest:
+                res2, _, _ = one(rest)
+                res = res[:crashed + 1] + res2
+        return res, crashed, (rc, out[-1500:])
+
+    if not cases:
+        return [], None, (0, "")
+    parts = _split(cases, NPAR if len(cases) > 50 else 1)
+    with ThreadPoolExecutor(max_workers=NPAR) as ex:
+        outs = list(ex.map(one, parts))
+    res, crashed, info, base = [], None, (0, ""), 0
+    for part, (r, c, inf) in zip(parts, outs):
+        res += r
+        if c is not None and crashed is None:
+            crashed, info = base + c, inf
+        base += len(part)
+    return res, crashed, info
 
 
 def first_diff(impl, model):
@@ -58,12 +96,6 @@ def first_diff(impl, model):
 def evaluate(ctx, exe, cases, name):
     """-> list of (case, impl dumps, model dumps, diff index, oracle result, crashed?)"""
     impl, crashed, info = impl_eval(ctx, exe, cases)
-    if crashed is not None:
-        # re-run the remaining cases one by one is expensive: run the rest in a second batch
-        rest = cases[crashed + 1:]
-        if rest:
-            impl2, _, _ = impl_eval(ctx, exe, rest)
-            impl = impl[:crashed + 1] + impl2
     model = model_eval(ctx, name, cases)
     out = []
     for i, c in enumerate(cases):
@@ -201,7 +233,7 @@ def run(ctx):
     quick = ctx.tier == "quick"
     # VERIF_SCALE (default 1) shrinks/grows the number of generated cases (used by the mutation self-tests)
     scale = float(os.environ.get("VERIF_SCALE", "1") or 1)
-    ncases = int((2400 if quick else 40000) * scale)
+    ncases = int((2400 if quick else 24000) * scale)
     ctx.trusted += [
         "hand-written model coq/C02/TrackInit.v tied by exact op-sequence differential (props/C02/run.py, harness/trackinit.cc)",
         "serial (host, OpenMP=event) semantics of atomic_add / kernel launches; std::remove_if, std::stable_partition, std::exclusive_scan specifications",
@@ -231,10 +263,10 @@ def run(ctx):
     while len(cases) < ncases + ncorp:
         cases.append(gen.gen_case(r, ctx.tier))
     if not quick:
-        cases += exhaustive_cases(3, 3) + [c for c in exhaustive_cases(2, 4)]
+        cases += exhaustive_cases(1, 4) + exhaustive_cases(2, 3) + exhaustive_cases(3, 2)
     t = time.time()
     nbad = 0
-    B = 4000
+    B = 20000
     for b0 in range(0, len(cases), B):
         results = evaluate(ctx, exe, cases[b0:b0 + B], "cases")
         for rr in results:
